@@ -3,7 +3,7 @@ from vlib import *
 import gen_vi
 from props import vilib
 
-PROP = "C13"; MODULES = ["NeatviVerif.Props.C13"]; MODE = "vi13"
+PROP = "C13"; MODULES = ["NeatviVerif.Props.C13", "NeatviVerif.Props.C13b"]; MODE = "vi13"
 
 def streams(probe, tier, seed, wide):
     rng = Rng(seed)
